@@ -49,6 +49,8 @@ MUTANTS = [
     ("C06", "detect", "specs/openapi/_hypothesis.py", "                item[key] = \"true\" if sub_item else \"false\"", "                item[key] = \"True\" if sub_item else \"False\"", "Python spelling of booleans"),
     ("C06", "detect", "specs/openapi/serialization.py", "        delimiter = \".\"\n", "        delimiter = \";\"\n", "label style explode delimiter"),
     ("C06", "detect", "specs/openapi/_hypothesis.py", "            elif value == \"..\":\n                parameters[key] = \"%2E%2E\"", "            elif value == \"..\":\n                parameters[key] = \"%2E\"", "'..' encoded as a single dot"),
+    ("C06", "detect", "specs/openapi/serialization.py", "        if style == \"pipeDelimited\":\n            yield delimited(name, delimiter=\"|\")", "        if style == \"pipeDelimited\":\n            yield delimited(name, delimiter=\",\")", "pipeDelimited dispatched to the comma encoder"),
+    ("C06", "detect", "specs/openapi/serialization.py", "            for func in reversed(functions):", "            for func in functions:", "conversions composed in the wrong order"),
     # ---- C07
     ("C07", "detect", FIL, "return any(filter_.match(ctx) for filter_ in self._includes)", "return all(filter_.match(ctx) for filter_ in self._includes)", "includes combined with all"),
     ("C07", "detect", FIL, "        return all(matcher.match(ctx) for matcher in self.matchers)", "        return any(matcher.match(ctx) for matcher in self.matchers)", "matchers of one filter combined with any"),
